@@ -306,6 +306,8 @@ fn pick_blob_files_to_rewrite(
             .collect::<Vec<_>>();
 
         for additional_ref in other_refs {
+            #[cfg(feature = "verif")]
+            crate::verif::reach("pick_blob_files_to_rewrite:referenced_outside_compaction");
             linked_blob_files.retain(|x| x.id() != additional_ref.blob_file_id);
         }
     }
